@@ -25,6 +25,7 @@ package masks
 //@   ensures [projection] old(recv.fields) != nil && !isnil(msg) && len(old(recv.fields.Paths)) > 0 ==> msgval(res) == filtered(old(msgval(msg)), old(recv.fields.Paths))
 //@   ensures [empty-mask] old(recv.fields) != nil && !isnil(msg) && len(old(recv.fields.Paths)) == 0 ==> msgval(res) == emptymsg(msg)
 //@   ensures [argument-untouched] msgval(msg) == old(msgval(msg))
+//@   ensures [same-or-fresh] res == msg || fresh(res)
 //@   ensures [real] !isnil(msg) ==> sametype(res, msg) && !isnil(res) && (ref(msg) != nil ==> ref(res) != nil)
 //@   modifies nothing
 //@
@@ -79,3 +80,12 @@ package masks
 //@   trusted
 //@   trusts msgframe(dst)
 //@   modifies msgs, ghost$msg
+//@
+//@ // C07 ownership rule for the reflection walk: pruneEmpty only ever CLEARS fields of dst; it never sets one, so nothing
+//@ // reachable from the caller's message (src) can be grafted into the message that is about to be stored
+//@ property C07
+//@ func pruneEmpty$1(d, v) (cont)
+//@   option only post     // nil-ness of protoreflect handles is the reflection API's business; this contract is about which calls are made
+//@   track Set
+//@   track Mutable
+//@   ensures [no-graft] calls(Set) == old(calls(Set)) && calls(Mutable) == old(calls(Mutable))
